@@ -8,6 +8,7 @@ Clauses of the property and the theorems stating them:
   (b) ... (see below)
 -/
 import OccaProofs.Lemmas.FunctionalReduce
+import OccaProofs.Lemmas.FunctionalState
 
 namespace Occa.Functional.C23
 open Occa Occa.Gen Occa.Functional
@@ -334,6 +335,54 @@ theorem C23_empty_traps_without_guard (ts ti : Int) : mapVisit false 0 ts ti = .
   simp [this]
 
 
+/-! ### (b'') `array::map` in the state model (buffers, views): the result is `std::transform` of the input -/
+
+private theorem map_is_transform_of_visit (s : St) (src : Arr) (fn : List Int → Nat → Int)
+    (hsrc : src.buf < s.bufs.length)
+    (hvis : mapVisit emptyGuard src.len src.ts src.ti = .ok (forVals 0 src.len 1)) :
+    ∃ s' out, mapArr s src fn = .ok (s', out) ∧ out.len = src.len ∧
+      s'.read out = (List.range src.len).map (fn (s.read src)) ∧ s'.read src = s.read src := by
+  obtain ⟨hb, hbuf, hlen, hread, hkeep⟩ := alloc_props s (List.replicate src.len poison)
+  have hv : visit emptyGuard src = .ok (List.range src.len) := by
+    unfold visit
+    rw [hvis]
+    simp only
+    rw [map_toNat_forVals]
+  have hne : (s.alloc (List.replicate src.len poison)).2.buf ≠ src.buf := by omega
+  obtain ⟨h1, h2, _⟩ := mapInto_read src _ fn hne (List.range src.len) _ hb
+  have hl : ((s.alloc (List.replicate src.len poison)).1.read (s.alloc (List.replicate src.len poison)).2).length = src.len := by
+    rw [hread]; simp
+  refine ⟨mapInto (s.alloc (List.replicate src.len poison)).1 src (s.alloc (List.replicate src.len poison)).2
+      (List.range src.len) fn, (s.alloc (List.replicate src.len poison)).2, ?_, by rw [hlen]; simp, ?_, ?_⟩
+  · unfold mapArr mapToArr
+    simp only [hv]
+  · rw [h1, hkeep src hsrc]
+    have := foldl_set_range (fn (s.read src)) ((s.alloc (List.replicate src.len poison)).1.read (s.alloc (List.replicate src.len poison)).2)
+    rw [hl] at this
+    exact this
+  · rw [h2, hkeep src hsrc]
+
+/-- `a.map(fn)`: a fresh array holding `fn(values, i)` for every `i` in order, the input untouched — for
+    every length (0 included), any tile settings, once @tile scales its inner bound -/
+theorem C23_map_is_transform (s : St) (src : Arr) (fn : List Int → Nat → Int) (hsrc : src.buf < s.bufs.length)
+    (fl : FitsInt src.len) (fts : FitsInt src.ts) (fti : FitsInt src.ti)
+    (hguard : emptyGuard = true) (hscaled : tileInnerScaled = true) :
+    ∃ s' out, mapArr s src fn = .ok (s', out) ∧ out.len = src.len ∧
+      s'.read out = (List.range src.len).map (fn (s.read src)) ∧ s'.read src = s.read src := by
+  apply map_is_transform_of_visit s src fn hsrc
+  rw [hguard]
+  exact C23_map_visit src.len src.ts src.ti (by omega) fl fts fti hscaled
+
+/-- … and for the unscaled @tile as long as no more than one tile iteration is requested -/
+theorem C23_map_is_transform_partial (s : St) (src : Arr) (fn : List Int → Nat → Int) (hsrc : src.buf < s.bufs.length)
+    (fl : FitsInt src.len) (fts : FitsInt src.ts) (hti : src.ti ≤ 1) (fti : FitsInt src.ti)
+    (hguard : emptyGuard = true) :
+    ∃ s' out, mapArr s src fn = .ok (s', out) ∧ out.len = src.len ∧
+      s'.read out = (List.range src.len).map (fn (s.read src)) ∧ s'.read src = s.read src := by
+  apply map_is_transform_of_visit s src fn hsrc
+  rw [hguard]
+  exact C23_map_visit_partial src.len src.ts src.ti (by omega) fl fts hti fti
+
 /-! ### (c) the block-wise reduction equals the sequential fold -/
 
 /-- the 128 index blocks of the Serial/OpenMP reduce kernel are consecutive and cover `0 .. len-1` exactly once -/
@@ -412,6 +461,23 @@ example : cpuReduce ([3, 1, 4, 1, 5] : List Int).length 0 (redFn 0 0 0 [3, 1, 4,
 /-- F62 (finding): an initial value that is not the identity is folded into each of the 128 blocks -/
 theorem C23_local_init_counted_per_block :
     cpuReduce 2 5 (redFn 0 0 0 [1, 2]) (hostComb 0) = 128 * 5 + 3 := by decide +kernel
+
+/-- the dot product is the CPU reduction of the element-wise products -/
+theorem C23_dot (xs ys : List Int) :
+    cpuReduce xs.length 0 (fun acc i => acc + xs.getD i.toNat 0 * ys.getD i.toNat 0) (hostComb 0) =
+      ((List.range xs.length).map fun i => xs.getD i 0 * ys.getD i 0).foldl (· + ·) 0 := by
+  have h := C23_cpu_reduce_monoid (· + ·) 0 (fun a b c => Int.add_assoc a b c) (fun a => Int.zero_add a)
+    (fun a => Int.add_zero a) (fun i => xs.getD i.toNat 0 * ys.getD i.toNat 0) xs.length (by omega)
+  have e : (forVals 0 (xs.length : Int) 1).map (fun i => xs.getD i.toNat 0 * ys.getD i.toNat 0) =
+      (List.range xs.length).map fun i => xs.getD i 0 * ys.getD i 0 := by
+    rw [forVals_one]
+    simp only [Int.sub_zero, Int.toNat_natCast, List.map_map]
+    apply List.map_congr_left
+    intro i _
+    simp
+  rw [e] at h
+  rw [← h]
+  rfl
 
 /-- the full statement for a reduction with an initial value: the fold from that value -/
 def C23_reduce_init_full : Prop :=
